@@ -32,14 +32,28 @@ Prefix(s, n) == IF n = 0 THEN 0 ELSE s[n] + Prefix(s, n - 1)
 \* index (in AllUnits) of the unit containing byte offset c (cut after c bytes)
 UnitOfCut(ulens, c) == CHOOSE u \in 1..Len(ulens) : Prefix(ulens, u - 1) < c /\ c <= Prefix(ulens, u)
 \* is the cut (after unit index u of AllUnits, possibly inside it) inside a markup declaration or raw text ?
-InDecl(doc, i) == \E o \in 1..i : doc[o].k = "copen" /\ ~\E x \in o..(i - 1) : doc[x].k = "cclose"
-InRaw(doc, i) == \E o \in 1..(i - 1) : doc[o].k = "stag" /\ doc[o].n \in RawEls
-                                        /\ ~\E x \in (o + 1)..(i - 1) : doc[x].k = "etag" /\ doc[x].n = doc[o].n
+\* a markup declaration / raw-text element is a known source of chunk dependence only when it CONTAINS markup
+DeclOpen(doc, i) == IF \E o \in 1..i : doc[o].k = "copen" /\ ~\E x \in o..(i - 1) : doc[x].k = "cclose"
+                    THEN CHOOSE o \in 1..i : doc[o].k = "copen" /\ ~\E x \in o..(i - 1) : doc[x].k = "cclose" /\ \A o2 \in (o + 1)..i : doc[o2].k # "copen"
+                    ELSE 0
+DeclEnd(doc, o) == IF \E x \in o..Len(doc) : doc[x].k = "cclose" THEN CHOOSE x \in o..Len(doc) : doc[x].k = "cclose" /\ \A y \in o..(x - 1) : doc[y].k # "cclose" ELSE Len(doc)
+RawOpen(doc, i) == IF \E o \in 1..(i - 1) : doc[o].k = "stag" /\ doc[o].n \in RawEls /\ ~\E x \in (o + 1)..(i - 1) : doc[x].k = "etag" /\ doc[x].n = doc[o].n
+                   THEN CHOOSE o \in 1..(i - 1) : doc[o].k = "stag" /\ doc[o].n \in RawEls /\ ~\E x \in (o + 1)..(i - 1) : doc[x].k = "etag" /\ doc[x].n = doc[o].n
+                   ELSE 0
+RawEnd(doc, o) == IF \E x \in (o + 1)..Len(doc) : doc[x].k = "etag" /\ doc[x].n = doc[o].n
+                  THEN CHOOSE x \in (o + 1)..Len(doc) : doc[x].k = "etag" /\ doc[x].n = doc[o].n /\ \A y \in (o + 1)..(x - 1) : ~(doc[y].k = "etag" /\ doc[y].n = doc[o].n)
+                  ELSE Len(doc)
+HasMarkup(doc, a, b) == \E x \in a..b : doc[x].k \in TagLike
 CutClass(doc, ulens, c) ==
-  LET u == AllUnits(doc)[UnitOfCut(ulens, c)] i == u[1] IN
-  IF InDecl(doc, i) \/ (doc[i].k = "cclose") THEN "D1_cut_in_markup_declaration"
-  ELSE IF InRaw(doc, i) \/ (i < Len(doc) /\ InRaw(doc, i + 1) /\ Prefix(ulens, UnitOfCut(ulens, c)) = c)
-       THEN "D2_cut_in_raw_text" ELSE "chunk_dependence"
+  LET ui == UnitOfCut(ulens, c)
+      u == AllUnits(doc)[ui] i == u[1]
+      atEnd == Prefix(ulens, ui) = c
+      j == IF atEnd /\ u[2] = Len(doc[i].us) /\ i < Len(doc) THEN i + 1 ELSE i      \* lexeme the cut falls in / before
+      dO == DeclOpen(doc, i)
+      rO == RawOpen(doc, j)
+  IN IF dO # 0 /\ HasMarkup(doc, dO + 1, DeclEnd(doc, dO)) THEN "D1_cut_in_markup_declaration"
+     ELSE IF rO # 0 /\ HasMarkup(doc, rO + 1, RawEnd(doc, rO) - 1) THEN "D2_cut_in_raw_text"
+     ELSE "chunk_dependence"
 
 \* a document with an invalid byte drives the chain into its error state, which the code-shaped model does not cover
 HasBad(doc) == \E i \in 1..Len(doc) : \E j \in 1..Len(doc[i].us) : doc[i].us[j] = "~!~"
@@ -57,8 +71,8 @@ TraceCase ==
      /\ Judge(HasBad(doc) \/ e.chunked = e.whole, IF mc.dev # {} /\ e.chunked = mcs THEN DevClass(mc.dev) ELSE "chunk_dependence")
      /\ (IF e.sweep /\ ~HasBad(doc)
          THEN /\ \A k \in 1..Len(e.cut_diffs) : Report("VERDICT", CutClass(doc, e.ulens, e.cut_diffs[k][1]))
-              /\ Judge(e.byte1 = e.whole, IF \E i \in 1..Len(doc) : doc[i].k = "copen" THEN "D1_cut_in_markup_declaration"
-                                         ELSE IF \E i \in 1..Len(doc) : doc[i].k = "stag" /\ doc[i].n \in RawEls THEN "D2_cut_in_raw_text"
+              /\ Judge(e.byte1 = e.whole, IF \E i \in 1..Len(doc) : doc[i].k = "copen" /\ HasMarkup(doc, i + 1, DeclEnd(doc, i)) THEN "D1_cut_in_markup_declaration"
+                                         ELSE IF \E i \in 1..Len(doc) : doc[i].k = "stag" /\ doc[i].n \in RawEls /\ HasMarkup(doc, i + 1, RawEnd(doc, i) - 1) THEN "D2_cut_in_raw_text"
                                          ELSE "chunk_dependence")
               /\ Judge(e.byte1_empty = e.byte1, "chunk_dependence")
          ELSE TRUE)
